@@ -413,8 +413,9 @@ func (t *feeTracer) CaptureEnd(_ []byte, gasUsed uint64, _ time.Duration, _ erro
 		t.refund = t.env.StateDB.GetRefund()
 	}
 }
-func (t *feeTracer) CaptureEnter(vm.OpCode, common.Address, common.Address, []byte, uint64, *big.Int) {}
-func (t *feeTracer) CaptureExit([]byte, uint64, error)                                               {}
+func (t *feeTracer) CaptureEnter(vm.OpCode, common.Address, common.Address, []byte, uint64, *big.Int) {
+}
+func (t *feeTracer) CaptureExit([]byte, uint64, error) {}
 func (t *feeTracer) CaptureState(uint64, vm.OpCode, uint64, uint64, *vm.ScopeContext, []byte, int, error) {
 }
 func (t *feeTracer) CaptureFault(uint64, vm.OpCode, uint64, uint64, *vm.ScopeContext, int, error) {}
@@ -424,6 +425,7 @@ type feeEvm struct {
 	Consumed uint64 `json:"consumed"`
 	Refund   uint64 `json:"refund"`
 	Failed   bool   `json:"failed,omitempty"`
+	NoTrace  bool   `json:"notrace,omitempty"`
 	Err      string `json:"err,omitempty"`
 }
 
@@ -511,6 +513,10 @@ func (e *feeEnv) rawEvm(ctx sdk.Context, tx sdk.Tx, etxs []*ethtypes.Transaction
 		if tr.ended {
 			o.Consumed += tr.used
 			o.Refund = tr.refund
+		} else {
+			// the EVM returned before the top-level frame started (e.g. value not
+			// affordable): nothing beyond the intrinsic gas was consumed
+			o.NoTrace = true
 		}
 		outs[i] = o
 		if err := k.RefundGas(fork, msg, msg.Gas()-res.GasUsed, cfg.Params.EvmDenom); err != nil {
@@ -527,8 +533,8 @@ type feeObs struct {
 	Check   int      `json:"check"` // the same ante chain in CheckTx mode: 0 pass, 1-3
 	Wanted  uint64   `json:"wanted"`
 	Used    uint64   `json:"used"`
-	Net     string   `json:"net"`   // sender's balance decrease minus the value that reached the recipients
-	Coll    string   `json:"coll"`  // fee collector increase
+	Net     string   `json:"net"`  // sender's balance decrease minus the value that reached the recipients
+	Coll    string   `json:"coll"` // fee collector increase
 	MsgUsed []uint64 `json:"msg_used"`
 	Bal0    string   `json:"bal0"`
 	Coll0   string   `json:"coll0"`
@@ -686,21 +692,23 @@ func (m feeMsg) effPrice(base *big.Int) *big.Int {
 	return bmin(new(big.Int).Add(bigOf(m.Tip), base), bigOf(m.Price))
 }
 
-func feeOracle(p feeParams, t feeTx, o feeObs) (msg string, belowFloorPaid bool) {
+// feeOracle evaluates the property on what the implementation did with one
+// transaction.  strict = also demand "charged >= gas x minGasPrice" of Cosmos
+// transactions when the base fee is below the min gas price (the reading of the
+// first sentence under which finding "feemarket:base-below-min-gas-price" is a
+// violation); by default that reading is applied only where base >= minGasPrice.
+func feeOracle(p feeParams, t feeTx, o feeObs, strict bool) (msg string, belowFloorPaid bool) {
 	if o.Stray != "" {
-		return o.Stray, false
+		return "harness: " + o.Stray, false
 	}
 	mgp, mult := bigOf(p.Mgp), bigOf(p.Mult)
-	base := bigOf(p.Base)
-	if p.NoBase {
-		base = big.NewInt(0)
-	}
+	base := p.effBase()
 	accepted := o.Code == 0 || o.Code == 4
 	net, coll := bigOf(o.Net), bigOf(o.Coll)
+	if !accepted {
+		return "", false
+	}
 	if t.Route == "cosmos" {
-		if !accepted {
-			return "", false
-		}
 		// declared fee in the EVM denomination >= gas limit x min gas price
 		fee := big.NewInt(0)
 		for _, c := range t.Fee {
@@ -712,26 +720,16 @@ func feeOracle(p feeParams, t feeTx, o feeObs) (msg string, belowFloorPaid bool)
 		if new(big.Int).Mul(fee, big1e18).Cmp(floor) < 0 {
 			return fmt.Sprintf("cosmos tx accepted with fee %s aISLM < gas %d x minGasPrice %s e-18", fee, t.Gas, mgp), false
 		}
-		if net.Cmp(coll) != 0 {
-			return fmt.Sprintf("cosmos tx: sender paid %s, fee collector received %s", net, coll), false
-		}
-		if net.Cmp(fee) > 0 {
-			return fmt.Sprintf("cosmos tx: sender paid %s > declared fee %s", net, fee), false
-		}
 		paidBelow := new(big.Int).Mul(net, big1e18).Cmp(floor) < 0
-		if paidBelow && new(big.Int).Mul(base, big1e18).Cmp(mgp) >= 0 {
-			return fmt.Sprintf("cosmos tx charged %s < gas %d x minGasPrice %s e-18 although base fee %s >= minGasPrice", net, t.Gas, mgp, base), false
+		if paidBelow && (strict || new(big.Int).Mul(base, big1e18).Cmp(mgp) >= 0) {
+			return fmt.Sprintf("cosmos tx declared %s but was charged %s < gas %d x minGasPrice %s e-18 (base fee %s)", fee, net, t.Gas, mgp, base), true
 		}
 		return "", paidBelow
 	}
-	if !accepted {
-		return "", false
-	}
-	sumLimit := uint64(0)
 	for i, m := range t.Msgs {
 		gl := new(big.Int).SetUint64(m.Gas)
 		cap := bigOf(m.Price)
-		// fee (what the transaction offers: fee cap x gas; and what it is charged up front: effective price x gas) >= floor
+		// fee (what the message offers: fee cap x gas; and what it is charged up front: effective price x gas) >= floor
 		floor := new(big.Int).Mul(mgp, gl)
 		if new(big.Int).Mul(new(big.Int).Mul(cap, gl), big1e18).Cmp(floor) < 0 {
 			return fmt.Sprintf("eth msg %d accepted with fee %s x %d < gas x minGasPrice %s e-18", i, cap, m.Gas, mgp), false
@@ -742,25 +740,21 @@ func feeOracle(p feeParams, t feeTx, o feeObs) (msg string, belowFloorPaid bool)
 		if cap.Cmp(base) < 0 {
 			return fmt.Sprintf("eth msg %d accepted with fee cap %s < base fee %s", i, cap, base), false
 		}
-		sumLimit += m.Gas
 	}
 	if o.Code != 0 {
 		// not executed (the message handler returned an error): the property's
-		// second sentence does not apply; only conservation is demanded
-		if net.Cmp(coll) != 0 {
-			return fmt.Sprintf("failed eth tx: sender lost %s, fee collector received %s", net, coll), false
-		}
+		// second sentence does not apply
 		return "", false
 	}
 	if len(o.MsgUsed) != len(t.Msgs) || len(o.Evm) != len(t.Msgs) {
-		return "executed eth tx without per-message gas figures", false
+		return "harness: executed eth tx without per-message gas figures", false
 	}
 	want := big.NewInt(0)
 	sumUsed := uint64(0)
 	for i, m := range t.Msgs {
 		ev := o.Evm[i]
 		if ev.Hard {
-			return fmt.Sprintf("msg %d executed for real but failed hard on the fork (%s)", i, ev.Err), false
+			return fmt.Sprintf("harness: msg %d executed for real but failed hard on the fork (%s)", i, ev.Err), false
 		}
 		q := ev.Consumed / 5
 		rf := ev.Refund
@@ -790,8 +784,8 @@ func feeOracle(p feeParams, t feeTx, o feeObs) (msg string, belowFloorPaid bool)
 	if coll.Cmp(want) != 0 {
 		return fmt.Sprintf("fee collector received %s != sum gasUsed x effectiveGasPrice = %s", coll, want), false
 	}
-	if o.Used != sumUsed || o.Wanted != sumLimit {
-		return fmt.Sprintf("response gas used/wanted %d/%d != sum of per-message gas used %d / sum of limits %d", o.Used, o.Wanted, sumUsed, sumLimit), false
+	if o.Used != sumUsed {
+		return fmt.Sprintf("response gas used %d != sum of per-message gas used %d", o.Used, sumUsed), false
 	}
 	return "", false
 }
@@ -857,7 +851,7 @@ func (p feeParams) coq() string {
 // ---------------------------------------------------------------- one case
 const feeClassBaseBelowMin = "feemarket:base-below-min-gas-price"
 
-func feesRunCase(id string, in feeInput) Case {
+func feesRunCase(id string, in feeInput, strict bool) Case {
 	e := feeBaseEnv()
 	ctx := e.begin()
 	c := Case{ID: id, Kind: "txs", Input: in, CoqList: "cases"}
@@ -877,7 +871,7 @@ func feesRunCase(id string, in feeInput) Case {
 		o := e.runTx(t)
 		obs = append(obs, o)
 		steps = append(steps, fmt.Sprintf("(%s, %s, %s, %s)", coqZs(o.Bal0), coqZs(o.Coll0), t.coq(o), o.coq()))
-		m, b := feeOracle(in.Params, t, o)
+		m, b := feeOracle(in.Params, t, o, strict)
 		if m != "" && msgAll == "" {
 			msgAll = fmt.Sprintf("tx %d: %s", i, m)
 		}
@@ -897,6 +891,9 @@ func feesRunCase(id string, in feeInput) Case {
 						if o.Evm[j].Refund > o.Evm[j].Consumed/5 {
 							tags["evm:refund-capped"] = true
 						}
+					}
+					if o.Evm[j].NoTrace {
+						tags["evm:no-top-frame"] = true
 					}
 					if o.Evm[j].Failed {
 						tags["evm:failed"] = true
@@ -926,8 +923,12 @@ func feesRunCase(id string, in feeInput) Case {
 	c.Obs = obs
 	c.Coq = fmt.Sprintf("(%s, %s)", in.Params.coq(), "["+strings.Join(steps, ";\n    ")+"]")
 	c.OracleOK, c.OracleMsg = msgAll == "", msgAll
-	if below {
-		c.Class = feeClassBaseBelowMin
+	// class = shape of the input: a Cosmos transaction while the base fee in
+	// force is below the min gas price
+	for _, t := range in.Txs {
+		if t.Route == "cosmos" && new(big.Int).Mul(in.Params.effBase(), big1e18).Cmp(bigOf(in.Params.Mgp)) < 0 {
+			c.Class = feeClassBaseBelowMin
+		}
 	}
 	c.Nontrivial = nontriv
 	for t := range tags {
@@ -938,6 +939,7 @@ func feesRunCase(id string, in feeInput) Case {
 }
 
 func feesDriver(cfg Config, out *Out) error {
+	strict := cfg.Args["strict"] == "1"
 	if cfg.Replay != "" {
 		i := 0
 		return readReplayInputs(cfg.Replay, func(raw json.RawMessage) error {
@@ -945,14 +947,14 @@ func feesDriver(cfg Config, out *Out) error {
 			if err := json.Unmarshal(raw, &in); err != nil {
 				return err
 			}
-			out.Emit(feesRunCase(fmt.Sprintf("replay-%d", i), in))
+			out.Emit(feesRunCase(fmt.Sprintf("replay-%d", i), in, strict))
 			i++
 			return nil
 		})
 	}
 	r := NewRng(cfg.Seed)
 	for i := 0; i < cfg.N; i++ {
-		out.Emit(feesRunCase(fmt.Sprintf("s%d-%d", cfg.Seed, i), feesGen(r.Fork())))
+		out.Emit(feesRunCase(fmt.Sprintf("s%d-%d", cfg.Seed, i), feesGen(r.Fork()), strict))
 	}
 	return nil
 }
